@@ -239,6 +239,69 @@ fn nocase_shapes(ops: &[Sx], rng: &mut Rng) -> (Vec<Sx>, Vec<Q>) {
     (more, qs)
 }
 
+/// annotations over text of TWO resources made in step (Multi, Composite or Directional selector over
+/// the n-th text selection of each, so the text selection handles coincide across the resources),
+/// and TEXT queries that start from such an annotation: ANNOTATION "id" and ANNOTATION ?a first
+fn aligned_shapes(ops: &[Sx], rng: &mut Rng) -> (Vec<Sx>, Vec<Q>) {
+    let mut store = new_store();
+    for op in ops {
+        apply_c08(&mut store, op);
+    }
+    let mut more = Vec::new();
+    let cand: Vec<(usize, i64, usize)> = store
+        .resources()
+        .filter(|r| r.textlen() >= 6 && r.id().map(|i| i.starts_with('r')).unwrap_or(false))
+        .filter_map(|r| r.id().unwrap()[1..].parse::<i64>().ok().map(|t| (r.handle().as_usize(), t, r.textlen())))
+        .collect();
+    let pair: Vec<(usize, i64, usize)> = if cand.len() >= 2 && rng.chance(1, 3) {
+        // two resources of the history (their text selections so far may or may not be in step)
+        let x = rng.below(cand.len());
+        let y = (x + 1 + rng.below(cand.len() - 1)) % cand.len();
+        vec![cand[x], cand[y]]
+    } else {
+        // two fresh resources (tokens 6 and 7 are not used by the history generator)
+        let n = store.resources_len();
+        let (la, lb) = (6 + rng.below(6), 6 + rng.below(6));
+        more.push(l(vec![a(0), a(6), a(la as i64)]));
+        more.push(l(vec![a(0), a(7), a(lb as i64)]));
+        vec![(n, 6, la), (n + 1, 7, lb)]
+    };
+    let text = |h: usize, x: usize, y: usize| l(vec![a(0), l(vec![a(1), a(h as i64)]), l(vec![a(0), a(x as i64)]), l(vec![a(0), a(y as i64)])]);
+    let mut qs = Vec::new();
+    let steps = 2 + rng.below(2);
+    for k in 0..steps {
+        let mut parts = Vec::new();
+        for &(h, _, len) in &pair {
+            let b = (2 * k + rng.below(2)).min(len - 1);
+            let e = (b + 1 + rng.below(2)).min(len);
+            parts.push(text(h, b, e));
+        }
+        if rng.chance(1, 4) {
+            // the same text once more: still to be returned once
+            parts.push(parts[0].clone());
+        }
+        if rng.chance(1, 3) {
+            parts.reverse();
+        }
+        let mut sel = vec![a(7), a(1 + rng.below(3) as i64)];
+        sel.extend(parts);
+        let tokn = 10 + k as i64;
+        more.push(l(vec![a(3), a(tokn), l(sel), l(vec![])]));
+        let meta = rng.chance(1, 4);
+        let mut cs = vec![Cst::Ann(VRef::Id(tokn), meta)];
+        if rng.chance(1, 3) {
+            cs.push(Cst::Res(VRef::Id(pair[rng.below(2)].1), false));
+        }
+        qs.push(Q { name: 0, rt: 5, cs, lim: None, opt: false, sub: None });
+    }
+    for _ in 0..2 {
+        let outer_cs = if rng.chance(1, 2) { vec![] } else { vec![Cst::Res(VRef::Id(pair[rng.below(2)].1), false)] };
+        let sub = Q { name: 1, rt: 5, cs: vec![Cst::Ann(VRef::Var(0), rng.chance(1, 4))], lim: None, opt: rng.chance(1, 4), sub: None };
+        qs.push(Q { name: 0, rt: 0, cs: outer_cs, lim: None, opt: false, sub: Some(Box::new(sub)) });
+    }
+    (more, qs)
+}
+
 /// RELATION ?outer OP first (and, through the orderings, later) in a sub-query, ?outer bound to the
 /// annotations of the store - among them the discontinuous ones: every operator
 fn relation_queries(rng: &mut Rng) -> Vec<Q> {
@@ -307,6 +370,12 @@ pub fn generate_queries(out: &mut Out, ctx: &Ctx, tier: &str, seed: u64) {
             let (more, qs) = nocase_shapes(&ops, &mut rng);
             ops.extend(more);
             shaped = qs;
+        }
+        let mut aligned: Vec<Q> = Vec::new();
+        if i % 3 == 0 {
+            let (more, qs) = aligned_shapes(&ops, &mut rng);
+            ops.extend(more);
+            aligned = qs;
         }
         cfg.pool = text_pool(&ops);
         {
@@ -377,6 +446,12 @@ pub fn generate_queries(out: &mut Out, ctx: &Ctx, tier: &str, seed: u64) {
                 entries.push(qentry(&o));
             }
         }
+        for q in &aligned {
+            out.count("select_text_of_annotation_over_two_resources");
+            for o in orderings(q) {
+                entries.push(qentry(&o));
+            }
+        }
         if discontinuous {
             for q in relation_queries(&mut rng) {
                 out.count("select_relation_to_annotation");
@@ -400,7 +475,10 @@ pub fn generate_queries(out: &mut Out, ctx: &Ctx, tier: &str, seed: u64) {
         if i % 4 == 0 {
             // DELETE ANNOTATION ?x { SELECT ANNOTATION ?x WHERE ... }
             // ... also over nested selects, the deleted variable bound by the outer or by the inner one
-            let dcfg = QCfg { pool: cfg.pool.clone(), facts: cfg.facts.clone(), rts: vec![0], texts: true, unions: true, limits: true, max_depth: 1 };
+            // (DELETE <type of the variable>: annotations mostly, also data, keys, resources, data sets;
+            //  a TEXT variable is an error)
+            let drts = if rng.chance(1, 2) { vec![0] } else { vec![0, 1, 1, 2, 2, 3, 3, 4, 4, 5] };
+            let dcfg = QCfg { pool: cfg.pool.clone(), facts: cfg.facts.clone(), rts: drts, texts: true, unions: true, limits: true, max_depth: 1 };
             let mut outer = Vec::new();
             let sub = gen_query(&mut rng, &dcfg, &mut outer, 0);
             let var = if sub.sub.is_some() && rng.chance(2, 3) { 1 } else { 0 };
@@ -411,6 +489,7 @@ pub fn generate_queries(out: &mut Out, ctx: &Ctx, tier: &str, seed: u64) {
             let (i2, o, nt) = ctx.exec(&req);
             out.case(&i2, &o, nt, &req);
             out.count("delete");
+            out.count(&format!("delete_rt{}", var_rt(var, &sub)));
         }
         if i % 4 == 1 {
             // with an OFFSET the target is mostly a text selection or an annotation
@@ -549,6 +628,6 @@ pub fn generate(out: &mut Out, tier: &str, seed: u64) {
     }
 }
 
-pub const RULE: &str = "Layer 1 - LimitIter: exhaustive over item counts 0..=7 (thorough 12) and all (begin,end) in -9..=9 (thorough -15..=15), plus random larger ones; Handles: union and intersection of every ordered pair of duplicate-free handle lists of length <=3 over 5 handles (thorough <=4 over 6), in every order, followed by contains() probes, plus seeded random lists over up to 24 handles; from_iter/contains/sort on every list. Layers 2/3 - 4000 (thorough 60000) seeded random store histories of the C01 generator (<=12 or <=24 operations, typed values, half of them with removals); per history 3 random SELECT queries from the grammar of the fragment (result types ANNOTATION DATA KEY RESOURCE DATASET TEXT; 0-4 constraints per level out of ID, ANNOTATION, RESOURCE, DATASET, DATA set key, DATA set key op value, VALUE, DATA ?x, KEY ?x, TEXT ?x, RELATION ?x OP, TEXT literal incl. NOCASE with capitals, by id and by variable, normal and AS METADATA/TARGET; UNION of 2-3 branches; LIMIT with bounds -3..4; up to two nested (OPTIONAL) sub-queries referring to the outer variables; text literals drawn from the texts of the store), each in every order of the constraints of the outer level (<=4) and of the sub-query (<=3); every third history gets an annotation over two text selections of one resource (Multi/Composite/Directional) with simple annotations on and around its ranges, and ten queries SELECT ANNOTATION ?p { SELECT ANNOTATION|TEXT ?w WHERE RELATION ?p OP [; RESOURCE r | ANNOTATION ?p] } - one per relation operator, RELATION first and (through the orderings) later; per ordering: rows through STAMQL text, through the constructors and (queries without variables) through the iterator API, compared as sorted rows; every third history gets annotations on text with capitals (ASCII and non-ASCII) and TEXT AS NOCASE queries with the literal in another case, first and later; every 4th history a DELETE ANNOTATION query (also over nested selects, the deleted variable bound by the outer or the inner one) and every 4th an ADD ANNOTATION query (half of them TARGET ?x OFFSET b e on TEXT / ANNOTATION variables, begin- and end-aligned, also out of range) through query_mut, next to the direct calls, compared through the store observation of C01; DELETE without sub-query. Non-trivial: some row is returned / an annotation is added / removed. distinct = distinct request lines.";
+pub const RULE: &str = "Layer 1 - LimitIter: exhaustive over item counts 0..=7 (thorough 12) and all (begin,end) in -9..=9 (thorough -15..=15), plus random larger ones; Handles: union and intersection of every ordered pair of duplicate-free handle lists of length <=3 over 5 handles (thorough <=4 over 6), in every order, followed by contains() probes, plus seeded random lists over up to 24 handles; from_iter/contains/sort on every list. Layers 2/3 - 4000 (thorough 60000) seeded random store histories of the C01 generator (<=12 or <=24 operations, typed values, half of them with removals); per history 3 random SELECT queries from the grammar of the fragment (result types ANNOTATION DATA KEY RESOURCE DATASET TEXT; 0-4 constraints per level out of ID, ANNOTATION, RESOURCE, DATASET, DATA set key, DATA set key op value, VALUE, DATA ?x, KEY ?x, TEXT ?x, RELATION ?x OP, TEXT literal incl. NOCASE with capitals, by id and by variable, normal and AS METADATA/TARGET; UNION of 2-3 branches; LIMIT with bounds -3..4; up to two nested (OPTIONAL) sub-queries referring to the outer variables; text literals drawn from the texts of the store), each in every order of the constraints of the outer level (<=4) and of the sub-query (<=3); every third history gets an annotation over two text selections of one resource (Multi/Composite/Directional) with simple annotations on and around its ranges, and ten queries SELECT ANNOTATION ?p { SELECT ANNOTATION|TEXT ?w WHERE RELATION ?p OP [; RESOURCE r | ANNOTATION ?p] } - one per relation operator, RELATION first and (through the orderings) later; per ordering: rows through STAMQL text, through the constructors and (queries without variables) through the iterator API, compared as sorted rows; every third history gets annotations over text of two resources made in step (Multi/Composite/Directional over the n-th text selection of each, so that the text selection handles coincide across resources; sometimes the same text twice) and TEXT queries starting from them (SELECT TEXT WHERE ANNOTATION id [AS TARGET] [; RESOURCE r], SELECT ANNOTATION ?a { SELECT [OPTIONAL] TEXT WHERE ANNOTATION ?a }); every third history gets annotations on text with capitals (ASCII and non-ASCII) and TEXT AS NOCASE queries with the literal in another case, first and later; every 4th history a DELETE query (also over nested selects, the deleted variable bound by the outer or the inner one; half of them over annotations as STAMQL text, the rest over data, keys, resources and data sets through the constructors - an item in several rows is removed once - or over a TEXT variable: an error) and every 4th an ADD ANNOTATION query (half of them TARGET ?x OFFSET b e on TEXT / ANNOTATION variables, begin- and end-aligned, also out of range) through query_mut, next to the direct calls, compared through the store observation of C01; DELETE without sub-query. Non-trivial: some row is returned / an annotation is added / removed. distinct = distinct request lines.";
 
 pub const EXHAUSTIVE: bool = true;
